@@ -516,6 +516,7 @@ class ConfigParser(object):
         '[': (']', list, self.parse_value)
     }
     if self._current_token.string in bracket_types:
+      location = self._current_location()
       open_bracket = self._current_token.string
       close_bracket, type_fn, parse_item = bracket_types[open_bracket]
       self._advance()
@@ -536,7 +537,9 @@ class ConfigParser(object):
         type_fn = lambda x: x[0]
 
       self._advance()
-      return True, type_fn(values)
+      # Building the value can fail (e.g. an unhashable dictionary key).
+      with utils.try_with_location(location):
+        return True, type_fn(values)
 
     return False, None
 
